@@ -31,3 +31,4 @@ INVARIANT Drift_Measure
 INVARIANT Drift_FromStab
 INVARIANT Drift_Refusal
 INVARIANT Drift_Decompose
+INVARIANT WideEntropyOK
